@@ -163,6 +163,36 @@ def check(ctx: Ctx, ev: Evidence) -> list[Finding]:
         ev.inst("C09-R1", k + f" ({how})", "ok" if dep else "violation", loc(fi, r))
         if not dep:
             out.append(Finding("C09-R1", k, f"checksum result does not depend on the prefix length size_to_verify ({how or 'no data or control dependence'})", loc(fi, r)))
+    # R7: a prefix length of 0 is a legal request (EOF (cancel) before any file data): the parameter is never tested for
+    # truthiness, and it is replaced only behind an explicit `is None` test
+    ev.rule("C09-R7", "the prefix length is never decided by truthiness (0 is a legal prefix) and is replaced only behind an `is None` test", 1)
+    truthy = []
+    for n in ast.walk(fi.node):
+        tests = []
+        if isinstance(n, (ast.If, ast.While, ast.IfExp)):
+            tests.append(n.test)
+        elif isinstance(n, ast.BoolOp):
+            tests += n.values
+        elif isinstance(n, ast.UnaryOp) and isinstance(n.op, ast.Not):
+            tests.append(n.operand)
+        for t in tests:
+            if isinstance(t, ast.UnaryOp) and isinstance(t.op, ast.Not):
+                t = t.operand
+            if isinstance(t, ast.Name) and t.id == "size_to_verify":
+                truthy.append(n)
+    reass = []
+    for n in ast.walk(fi.node):
+        if isinstance(n, (ast.Assign, ast.AugAssign, ast.AnnAssign)):
+            tg = n.targets if isinstance(n, ast.Assign) else [n.target]
+            if any(isinstance(t, ast.Name) and t.id == "size_to_verify" for t in tg):
+                g = " ".join(ast.unparse(x) for x, _ in guards_of(fi.node, n))
+                if "size_to_verify is None" not in g:
+                    reass.append(n)
+    okr7 = not truthy and not reass
+    ev.inst("C09-R7", f"{fi.qualname}: truthiness tests of the prefix length: {len(truthy)}, replacements not behind `is None`: {len(reass)}", "ok" if okr7 else "violation", loc(fi, fi.node))
+    for n in truthy[:1] + reass[:1]:
+        out.append(Finding("C09-R7", f"{fi.qualname} | prefix length decided by truthiness / replaced | {norm(n)[:70]}",
+                           f"`{norm(n)[:90]}`: an explicit prefix length of 0 (nothing sent yet) is treated like 'not given': the checksum then covers the whole file instead of the empty prefix", loc(fi, n)))
     # R2
     # (a) definite, shape-independent part: what is fed to the CRC must be trimmed to the prefix, i.e. the fed bytes are
     #     data-dependent on size_to_verify (a loop TEST that depends on it stops the loop but does not trim the last block)
